@@ -432,7 +432,13 @@ def run_loop(I, st, fr, site, roots, run_body, what, extra_values=()):
         saved_lem = dict(I.lemma_uses)
         saved_ass = dict(I.assumptions)
         saved_loop_ix = fr.loop_ix
-        outs = run_body(head.copy())
+        # the step specifications below decide on the facts of each path through the body: no joining in here
+        saved_join = I.merge_shortcuts
+        I.merge_shortcuts = False
+        try:
+            outs = run_body(head.copy())
+        finally:
+            I.merge_shortcuts = saved_join
         failed = set()
         for (s, v, ctl) in outs:
             if ctl in (None, "continue"):
